@@ -23,7 +23,7 @@ type Engine struct{}
 func (e *Engine) Name() string { return "repsim" }
 
 func init() {
-	sim.Register(&Engine{}, "C01", "C02", "C03", "C04", "C05", "C09", "C10", "C11", "C12")
+	sim.Register(&Engine{}, "C01", "C02", "C03", "C04", "C05", "C09", "C10", "C11", "C12", "C14")
 }
 
 const baseWall = 1_700_000_000
@@ -69,6 +69,7 @@ type repState struct {
 	// discarded: bugs whose uncommitted (staged) operations were dropped by a close; their
 	// excerpt in the cache file still shows them until the bug is touched again
 	discarded map[string]bool
+	wiped     bool
 }
 
 type run struct {
@@ -212,7 +213,18 @@ func (x *run) setup() error {
 		if err := r.Init(); err != nil {
 			return err
 		}
-		for _, h := range x.w.Hubs {
+		mask := (1 << uint(len(x.w.Hubs))) - 1
+		if ms, ok := p.Cfg["remote_masks"].([]interface{}); ok && i < len(ms) {
+			if f, ok := ms[i].(float64); ok {
+				mask = int(f)
+			} else if n, ok := ms[i].(int); ok {
+				mask = n
+			}
+		}
+		for hi, h := range x.w.Hubs {
+			if mask&(1<<uint(hi)) == 0 {
+				continue
+			}
 			if err := r.AddRemote(h.Name, h); err != nil {
 				return err
 			}
@@ -374,6 +386,10 @@ func (x *run) execStep(s *sim.Step) {
 	label := fmt.Sprintf("step %d %s", s.Id, sim.StepString(*s))
 	concurrent := false
 
+	if rs.wiped {
+		x.w.Log.EndStep(label+" (wiped)", false)
+		return
+	}
 	if !rs.alive && s.Op != "restart" {
 		// a dead replica does nothing until it is restarted
 		x.w.Log.EndStep(label+" (dead)", false)
@@ -382,7 +398,7 @@ func (x *run) execStep(s *sim.Step) {
 	pre := x.observe(rs)
 	err := x.doStep(rs, s, pre)
 	switch s.Op {
-	case "pull", "merge", "fetch", "restart", "delclocks", "losecache":
+	case "pull", "merge", "fetch", "restart", "delclocks", "losecache", "remove", "wipe":
 		concurrent = true
 	}
 	if err == nil {
@@ -419,7 +435,13 @@ func (x *run) doStep(rs *repState, s *sim.Step, pre *obs) error {
 			return e
 		})
 	case "remove":
-		err = x.guard("remove", func() error { return x.stepRemove(rs, s) })
+		if x.on("C14") {
+			err = x.stepRemoveChecked(rs, s)
+		} else {
+			err = x.guard("remove", func() error { return x.stepRemove(rs, s) })
+		}
+	case "wipe":
+		err = x.guard("wipe", func() error { return x.stepWipe(rs, s) })
 	case "losecache":
 		err = x.guard("reopen", func() error { return x.stepLoseCache(rs, s) })
 	case "restart":
@@ -874,8 +896,25 @@ func (x *run) armFault(f string) {
 	x.w.Net.Fault = f
 }
 
+// hubFor picks one of the replica's configured remotes (nil if it has none).
+func (x *run) hubFor(rs *repState, ord int) *sim.Hub {
+	if len(rs.r.Remotes) == 0 {
+		return nil
+	}
+	name := rs.r.Remotes[ord%len(rs.r.Remotes)]
+	for _, h := range x.w.Hubs {
+		if h.Name == name {
+			return h
+		}
+	}
+	return nil
+}
+
 func (x *run) stepPush(rs *repState, s *sim.Step) error {
-	hub := x.w.Hubs[s.H%len(x.w.Hubs)]
+	hub := x.hubFor(rs, s.H)
+	if hub == nil {
+		return fmt.Errorf("no remote configured")
+	}
 	f := s.F
 	if !x.faults {
 		f = ""
@@ -909,7 +948,10 @@ type mergeOutcome struct {
 }
 
 func (x *run) stepPull(rs *repState, s *sim.Step, pre *obs) error {
-	hub := x.w.Hubs[s.H%len(x.w.Hubs)]
+	hub := x.hubFor(rs, s.H)
+	if hub == nil {
+		return fmt.Errorf("no remote configured")
+	}
 	f := s.F
 	if !x.faults {
 		f = ""
@@ -1248,10 +1290,16 @@ func (x *run) nontrivial() bool {
 		return n["ident-updated"] || n["ident-diverged"]
 	case "C10":
 		return n["interp"]
+	case "C14":
+		return n["removed"]
 	case "C11":
 		return n["rebuild"]
 	case "C12":
 		return n["query"]
 	}
 	return len(n) > 0
+}
+
+func openRaw(dir string) (*repository.GoGitRepo, error) {
+	return repository.OpenGoGitRepo(dir, "git-bug", nil)
 }
